@@ -4,6 +4,7 @@ repetition (DESIGN §3 C18, §1.1 shape M).
 (a) graph part, asan: all graphs x placements x query orders on the real allocator.
 (b) address part, plain: key model explored exhaustively per address window; every collision witness replayed on real
     Variable objects placed at the witness addresses; the model is bound to the code by reading the key the real code stored."""
+import os
 import time
 import sup
 
@@ -24,6 +25,10 @@ def main(tier):
     # (a) real allocator, ASan+UBSan
     c.run_family('asan', 'c18', 'graph', env=env, per_case_timeout=5)
     c.run_family('asan', 'c18', 'perm', env=env, chunk=1, per_case_timeout=600)
+    # (c) histories: id operations interleaved with add/remove (explicit-state search, implementation = transition relation)
+    os.environ['VERIF_TIER'] = tier  # xstate picks its depth bound from it; replays inherit it
+    c.run_family('asan', 'c18', 'ids3', env=env, per_case_timeout=1500, nsamples=1)
+    c.run_family('asan', 'c18', 'ids4', env=env, per_case_timeout=1500, nsamples=1)
     # (b) the enumerator against brute force, then the windows, then the binding grids
     c.run_family('plain', 'c18', 'selfcheck', env=env, chunk=1, per_case_timeout=300)
     c.run_family('plain', 'c18', 'window', env=env, chunk=1, per_case_timeout=900)
@@ -36,9 +41,10 @@ def main(tier):
                        'the verdict rests on the formula-agnostic part: end-to-end replays at the model\'s colliding addresses and all-pairs correctness + observed-key injectivity '
                        'on the spread and dense address sets' % (g('bind_equal'), g('bind_differs'), g('bind_key_not_scalar'), g('bind_unobservable')))
     extra = {
-        'states': g('graph_states') + g('perm_states') + g('model_sums_enumerated') + g('grid_pairs_judged'),
-        'transitions': g('graph_transitions') + g('perm_transitions') + g('address_transitions'),
-        'traces_validated_against_impl': g('graph_traces') + g('perm_traces') + g('address_traces'),
+        'states': g('graph_states') + g('perm_states') + g('states') + g('model_sums_enumerated') + g('grid_pairs_judged'),
+        'transitions': g('graph_transitions') + g('perm_transitions') + g('transitions') + g('address_transitions'),
+        'traces_validated_against_impl': g('graph_traces') + g('perm_traces') + g('transitions') + g('address_traces'),
+        'history_machines': {'states': g('states'), 'transitions': g('transitions'), 'depth_bounded': g('machines_depth_bounded'), 'fixpoint': g('machines_to_fixpoint')},
         'model_bound': bound,
         'key_model': {
             'formula': 'K(a,b) = (((s*(s+1)) mod 2^64) >> 1) + max(a,b), s = a+b  (src/analysermodel.cpp)',
@@ -55,7 +61,10 @@ def main(tier):
                             '+ address pairs judged on the binding grids; transitions = queries executed on the real code; traces = query orders / witness scenarios executed on the real code',
     }
     return c.finish(
-        rule='graph: every (n <= %s variables, 2-3 components, flat/chain hierarchy (n = 5: flat only), every assignment of variables to components, every edge set) is one case by construction; every case is asked '
+        rule='history (ids3/ids4): breadth-first search over ALL API histories up to depth %s / %s on 3 / 4 variables (one per component) over the alphabet addEquivalence, addEquivalence with ids, removeEquivalence (unordered pairs), '
+             'removeAllEquivalences (each variable), set/remove mapping and connection id (every ordered pair: direct, indirect and unconnected), de-duplicated by the observable state plus the private id-map entries; '
+             'in every reached state both query functions (fresh analysis, all ordered pairs, 2x) and both id getters are judged; ' % (('6', '4') if quick else ('8', '5')) +
+             'graph: every (n <= %s variables, 2-3 components, flat/chain hierarchy (n = 5: flat only), every assignment of variables to components, every edge set) is one case by construction; every case is asked '
              'all ordered pairs incl. (v,v), 3x each, in lexicographic order (fresh analysis), reverse order (second fresh analysis) and with each pair first (post-analysis cache restored); '
              'perm: n <= 3, every permutation of the n*n ordered pairs; window: all 2S/16 sums of 16-byte-aligned addresses of an S = %s MiB window are enumerated, T(s) sorted, every pair of sums '
              'with |dT| < S expanded - this yields ALL key collisions inside the window; the lowest and highest expansion with non-overlapping 32-byte objects is replayed on real Variables placed at those '
@@ -63,6 +72,7 @@ def main(tier):
              '32-byte objects per base, all pairs both orientations; judged = cases whose answers were compared with union-find reachability over equivalentVariable(i) lists'
              % (env['C18_MAXN'], env['C18_WINDOW_MIB'], env['C18_DENSE']),
         assumptions=[
+            'identifiers are decorations of a pair of equivalent variables: they never change connectivity; the getters return "" for a pair that is not linked (documented), the last identifier given to the pair while it was linked otherwise; a new direct equivalence starts without identifiers, the 4-argument addEquivalence sets both; removing a direct equivalence removes its identifiers',
             'reference = union-find over the public equivalentVariable(i) lists; areEquivalentVariables(v,v) must be true; the value of hasEquivalentVariable(v,true) on v itself is not fixed by the statement (only required to be stable)',
             'edges removed or variables destroyed between queries are out of scope (the analyser model documents a static model)',
             'addresses: 16-byte aligned (malloc alignment), live objects of sizeof(Variable) = 32 bytes do not overlap; windows are a finite list of bases typical of brk heaps, mmap arenas, ASan/macOS/Windows heaps, each explored exhaustively',
